@@ -14,7 +14,7 @@ How to run things:
       cd /tmp/wt/{pid} && PYTHONPATH=/tmp/wt/{pid} /venv/bin/python -W ignore your_demo.py
     and make your demo assert that `monkeytype.__file__` starts with /tmp/wt/{pid}/ (an editable install of another checkout exists in /venv; PYTHONPATH takes precedence over it).
   * the project's test-suite: cd /tmp/wt/{pid} && PYTHONPATH=/tmp/wt/{pid} /venv/bin/python -m pytest -q -p no:cacheprovider 2>&1 | tail -15
-    On the unmodified checkout exactly these 7 tests fail (known, pre-existing, ignore them): tests/test_config.py::TestDefaultCodeFilter::test_excludes_site_packages and six in tests/test_tracing.py::TestTraceCalls (test_access_property, test_callee_throws_recovers, test_caller_handles_callee_exception, test_generator_trace, test_nested_callee_throws_recovers, test_return_none). All other 373 tests pass. (Compare the list of failing tests, printed at the end of the run.)
+    On the unmodified checkout exactly 1 test fails (known, pre-existing, ignore it): tests/test_config.py::TestDefaultCodeFilter::test_excludes_site_packages. All other tests pass (summary line: "1 failed, 378 passed, 2 skipped, 1 xpassed"). (Compare the list of failing tests, printed at the end of the run.)
 
 The property under study (it is supposed to hold for the project):
 
@@ -25,7 +25,7 @@ The property under study (it is supposed to hold for the project):
   code anchors: {json.dumps(p['anchors']['mechanism'])}
 
 YOUR TASK: produce {n} different, independent, REALISTIC changes ("mutants") to the project's source (files under monkeytype/ only, never tests) such that each one
-  (1) still imports/compiles and the existing test-suite result is unchanged (the same 373 tests pass, the same 7 fail) — run the whole suite to be sure;
+  (1) still imports/compiles and the existing test-suite result is unchanged (the same tests pass, the same 1 fails) — run the whole suite to be sure;
   (2) BREAKS the property above (makes MonkeyType violate the statement for at least one input / history / configuration);
   (3) is the kind of plausible regression a developer could introduce (refactoring slip, off-by-one, wrong variable, dropped special case, changed default, caching, reordered statements, too-narrow/too-broad condition), not sabotage that ordinary use exposes at once. Prefer changes that need something specific to manifest: a particular combination of input shapes, a multi-step sequence of operations, an unusual but legitimate input, a particular configuration value, or two cooperating sites that each look fine alone. Each mutant should break the property through a DIFFERENT mechanism / code location. Small diffs (1-15 changed lines) are best.
 
